@@ -226,6 +226,73 @@ async fn ns_flow(log: &mut Log, st: &mut Stats, rng: &mut Rng) {
     probe.shutdown();
 }
 
+/// Paired experiment for the non-interference clause: the same duplicate-connection flow is
+/// run on two real `NodeServerState`s, one of which additionally holds an UNAUTHENTICATED
+/// session claiming the peer's name (any direction / nonce, inserted at a random moment).
+/// Every answer given to the genuine sessions must be identical in both runs.
+/// op `ni <what> <idx>`; impl `<answer with spoofer> | <answer without>`, pids shown as
+/// creation indices so that the two runs are comparable.
+async fn ns_noninterference(log: &mut Log, st: &mut Stats, rng: &mut Rng) {
+    let this = *rng.pick(&["m@h", "b@b", "a@a"]);
+    let peer = *rng.pick(&["p@h", "a@z", "zz@h"]);
+    let mut p1 = NodeStateProbe::new(this).await;
+    let mut p2 = NodeStateProbe::new(this).await;
+    let n = rng.range(2, 5) as usize;
+    let spoof_at = rng.below(n as u64 + 1) as usize;
+    let dir_mode = rng.below(3);
+    let (mut ids1, mut ids2) = (Vec::new(), Vec::new());
+    let mut spoof = None;
+    for i in 0..=n {
+        if i == spoof_at {
+            let sp = p1.open(rng.chance(1, 2)).await;
+            p1.register(sp, peer, *rng.pick(&[0u64, 1, 4]));
+            spoof = Some(sp);
+        }
+        if i == n {
+            break;
+        }
+        let srv = match dir_mode {
+            0 => true,
+            1 => false,
+            _ => rng.chance(1, 2),
+        };
+        ids1.push(p1.open(srv).await);
+        ids2.push(p2.open(srv).await);
+    }
+    let idx = |ids: &Vec<u64>, l: &Vec<u64>| {
+        let mut v: Vec<u64> = l.iter().map(|p| ids.iter().position(|q| q == p).map(|x| x as u64).unwrap_or(999)).collect();
+        v.sort_unstable();
+        show_u64s(&v)
+    };
+    log.rec(format!("ni begin {this} {peer} n={n} spoof_at={spoof_at}"), "ok");
+    for i in 0..n {
+        let nonce = *rng.pick(&[0u64, 0, 4, 4, 9]);
+        p1.register(ids1[i], peer, nonce);
+        p2.register(ids2[i], peer, nonce);
+        log.rec(format!("ni checkc {i}"), format!("{} | {}", p1.check_candidate(ids1[i]), p2.check_candidate(ids2[i])));
+    }
+    let mut order: Vec<usize> = (0..n).collect();
+    rng.shuffle(&mut order);
+    for i in order {
+        st.bump("ni_commit");
+        let show = |r: Option<(bool, Vec<u64>)>, ids: &Vec<u64>| match r {
+            None => "none".to_string(),
+            Some((s, l)) => format!("{s} {}", idx(ids, &l)),
+        };
+        let r1 = show(p1.commit(ids1[i]), &ids1);
+        let r2 = show(p2.commit(ids2[i]), &ids2);
+        log.rec(format!("ni commit {i}"), format!("{r1} | {r2}"));
+        let v1: Vec<u64> = p1.visible().into_iter().filter(|p| Some(*p) != spoof).collect();
+        log.rec("ni visible".to_string(), format!("{} | {}", idx(&ids1, &v1), idx(&ids2, &p2.visible())));
+        for j in 0..n {
+            log.rec(format!("ni elected {j}"), format!("{} | {}", p1.is_elected(ids1[j]), p2.is_elected(ids2[j])));
+            log.rec(format!("ni checkc {j}"), format!("{} | {}", p1.check_candidate(ids1[j]), p2.check_candidate(ids2[j])));
+        }
+    }
+    p1.shutdown();
+    p2.shutdown();
+}
+
 fn exhaustive(log: &mut Log, st: &mut Stats) {
     // every candidate list of length ≤ 3 over nonce ∈ {0,1,2}, both flags, both name orders
     // and the equal-name case, ids = a permutation-representative set {1,2,3} in every order.
@@ -294,6 +361,7 @@ async fn main() {
     for _ in 0..(cases / 4).max(5) {
         ns_case(&mut log, &mut st, &mut rng).await;
         ns_flow(&mut log, &mut st, &mut rng).await;
+        ns_noninterference(&mut log, &mut st, &mut rng).await;
     }
     st.add("lines", log.lines);
     st.write_json(&std::path::Path::new(&out).join("stats.json"));
